@@ -48,3 +48,10 @@ func init() {
 	prop("C10", "C10-R1", "C10-R2", "C10-R3", "C10-R4")
 	prop("C07", "C07-R2", "C07-R3")
 }
+
+func init() {
+	prop("C06", "C06-R1", "C06-R2")
+	prop("C04", "C04-R4")
+	prop("C07", "C07-R1", "C04-R5")
+	prop("C11", "C11-R2", "C06-R1")
+}
